@@ -26,6 +26,10 @@ SHAPES = ('one-one', 'many-one', 'one-many', 'paired')
 DTYPES = ('uint8', 'int16', 'int64', 'uint32')
 
 
+# the ten operations of a DES round in the order of the reference (which stops after operation number `step`)
+DES_STEP_NAMES = ['INITIAL_PERMUTATION', 'EXPANSIVE_PERMUTATION', 'ADD_ROUND_KEY', 'SBOXES', 'PERMUTATION_P', 'XOR_WITH_SAVED_LEFT_RIGHT', 'PERMUTE_RIGHT_LEFT',
+                  'INV_PERMUTATION_P_RIGHT', 'INV_PERMUTATION_P_DELTA_RIGHT', 'FINAL_PERMUTATION']
+
 def _key_arg(master, form):
     """master: (n, 8|16|24) uint8 -> the key argument in the requested form"""
     if form <= 24:
@@ -59,7 +63,7 @@ def check_stop(ctx, case):
     if rnd is not None:
         kw['at_round'] = rnd
     if step is not None:
-        kw['after_step'] = des.Steps(step) if case.get('step_enum') else step      # plain int or enumeration member
+        kw['after_step'] = getattr(des.Steps, DES_STEP_NAMES[step]) if case.get('step_enum') else step      # plain int, or the enumeration member selected by the NAME of the operation
     if at_des is not None:
         kw['at_des'] = at_des
     if case.get('prime'):
